@@ -18,7 +18,7 @@ def run(ctx):
         descs, hist, capped = enumerate_with_seeds(ROOTS, SEEDS, N=5, k=3, kseed=1, allow=("struct", "pre"))
     else:
         descs, hist, capped = enumerate_with_seeds(ROOTS, SEEDS, N=6, k=4, kseed=2, allow=("struct", "pre"))
-    items = [{"G": d, "route": r} for d in descs for r in ("instance", "params")]
+    items = [{"G": d, "route": r} for d in descs for r in ("instance", "params", "store")]
     with Pool(seeds=hash_seeds(ctx), init="engines.gwork:init", recycle=8000) as pool:
         outs = pool.map("engines.gwork:eval_c13", items)
     objs, sigs = 0, set()
@@ -32,7 +32,7 @@ def run(ctx):
         "evaluations": len(items),
         "distinct_nontrivial": len(sigs),
         "rule": "every description within (N,k) structural deviations (sharing, cycles of length 1-3, pre-tasks attached at any node / shared / nested, "
-                "init tasks on the root, task outputs) x {instance(), fromParameters(as_instance=True)}; instrumented universe classes log "
+                "init tasks on the root, task outputs) x {instance(), fromParameters(as_instance=True), three instance() calls sharing one ObjectStore (a sub-configuration, the root, the root again)}; instrumented universe classes log "
                 "__post_init__ (with the set of readable parameters) and execute; compared: object graph isomorphic to the description, one runtime "
                 "object per configuration, __post_init__ exactly once per object with all parameters set, each pre-task executed once, init tasks "
                 "once, in order, after all pre-tasks; distinct_nontrivial = distinct (signature, route)",
